@@ -197,7 +197,7 @@ def run_impl(case):
                     elif op == "set": r = ["bool", bool(await c.set(cm[1], dec(cm[2]), expire=cm[3] or None, exist=cm[4]))]
                     elif op == "set_many": r = ["unit" if (await c.set_many({k: dec(v) for k, v in cm[1]}, expire=cm[2] or None)) is None else "odd"]
                     elif op == "incr":
-                        v = await c.incr(cm[1], cm[2], expire=cm[3] or None); r = ["none"] if v is None else ["int", int(v)]
+                        v = await c.incr(cm[1], cm[2], expire=cm[3] or (0 if cm[2] % 2 else None)); r = ["none"] if v is None else ["int", int(v)]
                     elif op == "delete": r = ["bool", bool(await c.delete(cm[1]))]
                     elif op == "delete_many": r = ["unit" if (await c.delete_many(*cm[1])) is None else "odd"]
                     elif op == "delete_match": r = ["unit" if (await c.delete_match(cm[1])) is None else "odd"]
